@@ -1,5 +1,6 @@
 import gfapy
 import re
+import math
 
 def decode(string):
   try:
@@ -9,9 +10,18 @@ def decode(string):
 
 unsafe_decode = decode
 
-def validate_decoded(integer):
-  pass
-  # always valid
+def validate_decoded(obj):
+  if isinstance(obj, int):
+    pass
+  elif isinstance(obj, float):
+    if not math.isfinite(obj):
+      raise gfapy.ValueError(
+        "the value {} cannot be represented as a GFA float".format(obj))
+  else:
+    raise gfapy.TypeError(
+      "the class {} is incompatible with the datatype\n"
+      .format(obj.__class__.__name__)+
+      "(accepted classes: str, int, float)")
 
 def validate_encoded(string):
   if not re.match(r"^[-+]?[0-9]*\.?[0-9]+([eE][-+]?[0-9]+)?$", string):
@@ -28,6 +38,7 @@ def encode(obj):
     validate_encoded(obj)
     return obj
   elif isinstance(obj, int) or isinstance(obj, float):
+    validate_decoded(obj)
     return str(obj)
   else:
     raise gfapy.TypeError(
